@@ -123,7 +123,7 @@ OPTION_VALUES = {
     "tilesize": [4, 2, 8, 32, 40, 0, -2, "x", 1.5],
     "chunksize": [4, 2, 8, 32, 40, 1, 0, -3, "x", 2.5],
     "force": [True, False],
-    "verbose": [True],
+    "verbose": [True, False],
     "reprod": [True, False],
     "depth": [1, 2, 0, -1, "x", 3],
     "region_name": [["mod", "reg"], "bad", ["a"], [1, 2]],
